@@ -289,11 +289,22 @@ impl Polynomial<Cmplx> {
                     x = Cmplx::new( x.real, 0.0 );
                 }
                 poly_roots[j] = x;
-                b = ad[ j + 1 ];
-                for jj in (0..j+1).rev() {
-                    let c = ad[jj];
-                    ad[jj] = b;
-                    b = x * b + c;
+                if x.abs() <= 1.0 {
+                    // forward deflation (from the leading coefficient): stable for the roots of small modulus
+                    b = ad[ j + 1 ];
+                    for jj in (0..j+1).rev() {
+                        let c = ad[jj];
+                        ad[jj] = b;
+                        b = x * b + c;
+                    }
+                } else {
+                    // backward deflation (from the constant term): dividing out a large root forwards
+                    // cancels catastrophically and destroys the remaining small roots
+                    b = Cmplx::zero();
+                    for jj in 0..j+1 {
+                        b = ( b - ad[jj] ) / x;
+                        ad[jj] = b;
+                    }
                 }
             }
         }
